@@ -156,7 +156,7 @@ def parseNodes : Nat → List String → List (Node DPat) → Option (List (Node
       | rt :: rest2 =>
         match parseRoute rt with
         | some r =>
-          parseNodes f rest2 (.resource (resourcePat (t.drop 2).toString) r.guards none [⟨[], r.handler⟩] none :: acc)
+          parseNodes f rest2 (routeSugar (resourcePat (t.drop 2).toString) r :: acc)
         | none => none
       | [] => none
     else none
@@ -186,6 +186,7 @@ def parseReq (toks : List String) : Option Req :=
   match toks with
   | m :: target :: hs =>
     let path := target.toList.takeWhile (· != '?')
+    if path.head? != some '/' then none else
     some { method := m, path := requote path, headers := (hs.filter fun h => !h.startsWith "exp=").filterMap parseHeader }
   | _ => none
 
